@@ -331,13 +331,13 @@ def obs_term(o):
         tree=copt(o["tree"], ctree_term)))
 
 
-def exp_preamble(max_n: int = 600) -> str:
+def exp_preamble(max_n: int = 600, extra_ns=()) -> str:
     """`fexp` as the table of values numpy's exp returns on the arguments the tolerance
     criteria can produce (decay = 1e-3, n_max = 1000)."""
     pairs = []
     decay = 1e-3
     keys = {-decay * 1000}
-    for n in range(0, max_n + 1):
+    for n in list(range(0, max_n + 1)) + list(extra_ns):
         keys.add(-decay * n)
     for k in sorted(keys):
         pairs.append(f"({cfloat(k)}, {cfloat(float(np.exp(k)))})")
